@@ -1414,19 +1414,10 @@ Qed.
 
 
 (** * (4) fields owned by other actors *)
-Definition fupd_view (f : foreign_upd) (v : fview) : fview :=
-  {| fv_queue := match f_queue f with Some q => q | None => fv_queue v end;
-     fv_mark := match f_mark f with Some x => x | None => fv_mark v end;
-     fv_backoff := match f_backoff f with Some x => x | None => fv_backoff v end;
-     fv_nodepool := match f_nodepool f with Some x => x | None => fv_nodepool v end |}.
 
-(** what the foreign updates alone do to the view of PodGroup [n] *)
-Fixpoint foreign_only (n : string) (evs : list event) (v : fview) : fview :=
-  match evs with
-  | [] => v
-  | EvReconcile _ :: r => foreign_only n r v
-  | EvForeign n' f :: r => foreign_only n r (if String.eqb n' n then fupd_view f v else v)
-  end.
+(** what a list of key updates does to the value of key [k] *)
+Definition upd_val (k : string) (us : list (string * option string)) (v : option string) : option string :=
+  fold_left (fun v u => if String.eqb k (fst u) then snd u else v) us v.
 
 Lemma lookup_upd_label : forall k u l k',
     lookup k' (upd_label k u l) =
@@ -1438,22 +1429,88 @@ Proof.
   - now destruct (String.eqb k' k).
 Qed.
 
+Lemma lookup_upd_keys : forall us l k, lookup k (upd_keys us l) = upd_val k us (lookup k l).
+Proof.
+  unfold upd_keys, upd_val. induction us as [|u r IH]; intros l k; cbn [fold_left]; [reflexivity|].
+  rewrite IH. f_equal. apply lookup_upd_label.
+Qed.
+
+Lemma upd_val_untouched : forall k us v, ~ In k (map fst us) -> upd_val k us v = v.
+Proof.
+  unfold upd_val. induction us as [|u r IH]; intros v H; cbn [fold_left]; [reflexivity|].
+  cbn [map In] in H. destruct (String.eqb_spec k (fst u)) as [E|_].
+  - elim H. left. now symmetry.
+  - apply IH. intros Hin. apply H. now right.
+Qed.
+
+(** a label of the stored PodGroup after a foreign update, as a function of what it was before *)
+Definition flabel_upd (cfg : config) (k : string) (f : foreign_upd) (v : option string) : option string :=
+  if String.eqb k (c_queue_key cfg)
+  then match f_qlabel f with
+       | None => if String.eqb k (c_nodepool_key cfg)
+                 then match f_nodepool f with None => upd_val k (f_labels f) v | Some x => x end
+                 else upd_val k (f_labels f) v
+       | Some x => x
+       end
+  else if String.eqb k (c_nodepool_key cfg)
+       then match f_nodepool f with None => upd_val k (f_labels f) v | Some x => x end
+       else upd_val k (f_labels f) v.
+
+Lemma foreign_apply_label : forall cfg f g k,
+    mget k (pg_labels (foreign_apply cfg f g)) = flabel_upd cfg k f (mget k (pg_labels g)).
+Proof.
+  intros cfg f g k. unfold foreign_apply. cbn [norm pg_labels]. rewrite mget_norm_map. cbn [mget].
+  rewrite !lookup_upd_label, lookup_upd_keys, mget_or_nil. reflexivity.
+Qed.
+
+Lemma foreign_apply_annot : forall cfg f g k,
+    mget k (pg_annots (foreign_apply cfg f g)) = upd_val k (f_annots f) (mget k (pg_annots g)).
+Proof.
+  intros cfg f g k. unfold foreign_apply. cbn [norm pg_annots]. rewrite mget_norm_map. cbn [mget].
+  rewrite lookup_upd_keys, mget_or_nil. reflexivity.
+Qed.
+
+Lemma flabel_upd_other : forall cfg k f v,
+    k <> c_queue_key cfg -> k <> c_nodepool_key cfg -> flabel_upd cfg k f v = upd_val k (f_labels f) v.
+Proof.
+  intros cfg k f v Hq Hn. unfold flabel_upd.
+  destruct (String.eqb_spec k (c_queue_key cfg)); [congruence|].
+  destruct (String.eqb_spec k (c_nodepool_key cfg)); [congruence|]. reflexivity.
+Qed.
+
+(** [f_labels] may name the node-pool key as well: the dedicated field [f_nodepool] is applied after it *)
+Definition fupd_view (cfg : config) (f : foreign_upd) (v : fview) : fview :=
+  {| fv_queue := match f_queue f with Some q => q | None => fv_queue v end;
+     fv_mark := match f_mark f with Some x => x | None => fv_mark v end;
+     fv_backoff := match f_backoff f with Some x => x | None => fv_backoff v end;
+     fv_nodepool := match f_nodepool f with
+                    | Some x => x
+                    | None => upd_val (c_nodepool_key cfg) (f_labels f) (fv_nodepool v)
+                    end |}.
+
+(** what the foreign updates alone do to the view of PodGroup [n] *)
+Fixpoint foreign_only (cfg : config) (n : string) (evs : list event) (v : fview) : fview :=
+  match evs with
+  | [] => v
+  | EvReconcile _ :: r => foreign_only cfg n r v
+  | EvForeign n' f :: r => foreign_only cfg n r (if String.eqb n' n then fupd_view cfg f v else v)
+  end.
+
 Lemma foreign_apply_view : forall cfg f g,
     c_queue_key cfg <> c_nodepool_key cfg ->
-    foreign_view cfg (foreign_apply cfg f g) = fupd_view f (foreign_view cfg g).
+    foreign_view cfg (foreign_apply cfg f g) = fupd_view cfg f (foreign_view cfg g).
 Proof.
-  intros cfg f g Hne. unfold foreign_view, foreign_apply, fupd_view.
-  cbn [norm sp_queue sp_mark sp_backoff pg_labels fv_queue fv_mark fv_backoff fv_nodepool].
-  f_equal. rewrite mget_norm_map. cbn [mget]. rewrite !lookup_upd_label, String.eqb_refl.
+  intros cfg f g Hne. unfold foreign_view, fupd_view. cbn [fv_queue fv_mark fv_backoff fv_nodepool].
+  rewrite foreign_apply_label. unfold flabel_upd. rewrite String.eqb_refl.
   destruct (String.eqb_spec (c_nodepool_key cfg) (c_queue_key cfg)) as [E|_]; [congruence|].
-  rewrite mget_or_nil. unfold or_nil. destruct (f_nodepool f); reflexivity.
+  f_equal; try (now destruct (f_nodepool f)).
 Qed.
 
 Lemma step_foreign_view : forall af pf sg eq cfg cl e s n g,
     c_queue_key cfg <> c_nodepool_key cfg ->
     get_pg n s = Some g ->
     exists g', get_pg n (fst (step_with af pf sg eq cfg cl e s)) = Some g'
-               /\ foreign_view cfg g' = foreign_only n [e] (foreign_view cfg g).
+               /\ foreign_view cfg g' = foreign_only cfg n [e] (foreign_view cfg g).
 Proof.
   intros af pf sg eq cfg cl e s n g Hne Hg. destruct e as [p|n' f]; cbn [step_with foreign_only].
   - destruct (full_md_with af cfg cl p (get_asg (p_name p) s)) as [m|] eqn:E.
@@ -1474,7 +1531,7 @@ Theorem foreign_fields_kept : forall af pf sg eq cfg cl evs s n g,
     c_queue_key cfg <> c_nodepool_key cfg ->
     get_pg n s = Some g ->
     exists g', get_pg n (run_with af pf sg eq cfg cl evs s) = Some g'
-               /\ foreign_view cfg g' = foreign_only n evs (foreign_view cfg g).
+               /\ foreign_view cfg g' = foreign_only cfg n evs (foreign_view cfg g).
 Proof.
   intros af pf sg eq cfg cl evs. induction evs as [|e evs IH]; intros s n g Hne Hg.
   - exists g. auto.
@@ -1482,6 +1539,127 @@ Proof.
     destruct (IH _ n g1 Hne Hg1) as [g' [Hg' Hv']].
     exists g'. split; [exact Hg'|]. rewrite Hv', Hv1.
     destruct e as [p|n' f]; reflexivity.
+Qed.
+
+(** ** labels and annotations the grouper does not compute *)
+
+(** what the foreign updates alone do to key [k] of PodGroup [n] ([sel] = [f_labels] or [f_annots]) *)
+Fixpoint foreign_only_key (sel : foreign_upd -> list (string * option string)) (n k : string)
+         (evs : list event) (v : option string) : option string :=
+  match evs with
+  | [] => v
+  | EvReconcile _ :: r => foreign_only_key sel n k r v
+  | EvForeign n' f :: r => foreign_only_key sel n k r (if String.eqb n' n then upd_val k (sel f) v else v)
+  end.
+
+(** no reconcile among [evs] that targets PodGroup [n] computes key [k] ([sel] = [m_labels] or [m_annots]) *)
+Definition not_computed (af : bool) (cfg : config) (cl : list obj) (n : string) (evs : list event)
+           (sel : metadata -> option smap) (k : string) : Prop :=
+  forall p a m, In (EvReconcile p) evs -> full_md_with af cfg cl p a = Some m -> m_name m = n -> mget k (sel m) = None.
+
+Lemma not_computed_cons : forall af cfg cl n e evs sel k,
+    not_computed af cfg cl n (e :: evs) sel k ->
+    not_computed af cfg cl n [e] sel k /\ not_computed af cfg cl n evs sel k.
+Proof.
+  intros af cfg cl n e evs sel k H. split; intros p a m Hin; apply H.
+  - destruct Hin as [<-|[]]. now left.
+  - now right.
+Qed.
+
+Lemma ignored_labels_other : forall cfg old new k,
+    k <> c_queue_key cfg -> k <> c_nodepool_key cfg ->
+    lookup k (ignored_labels cfg old new) = mget k (pg_labels new).
+Proof.
+  intros cfg old new k Hq Hn. unfold ignored_labels, q_step, np_step. rewrite mget_or_nil.
+  destruct (lookup (c_queue_key cfg) (or_nil (pg_labels old)));
+    destruct (lookup (c_nodepool_key cfg) (or_nil (pg_labels old)));
+    rewrite ?lookup_aset, ?lookup_adel;
+    repeat match goal with
+           | |- context [String.eqb k ?x] => destruct (String.eqb_spec k x); [congruence|]
+           end; reflexivity.
+Qed.
+
+Lemma apply_slot_other_annots : forall sg eq cfg m old k,
+    mget k (m_annots m) = None ->
+    mget k (pg_annots (fst (apply_slot_with sg eq cfg m (Some old)))) = mget k (pg_annots old).
+Proof.
+  intros sg eq cfg m old k H. unfold apply_slot_with.
+  destruct (eq old _); cbn [fst]; [reflexivity|].
+  cbn [norm update_pg pg_annots ignore_fields create_pg]. rewrite mget_norm_map.
+  destruct (m_annots m) as [a|]; [|reflexivity].
+  rewrite copy_string_map_some. cbn [mget] in *. now rewrite lookup_copy_into, H, mget_or_nil.
+Qed.
+
+Section ForeignKey.
+  Variables (af pf sg : bool) (eq : pg -> pg -> bool) (cfg : config) (cl : list obj).
+  (** [fsel]/[msel]/[gsel]: the label side or the annotation side *)
+  Variables (fsel : foreign_upd -> list (string * option string)) (msel : metadata -> option smap)
+            (gsel : pg -> option smap) (k : string).
+  Hypothesis foreign_side : forall f g, mget k (gsel (foreign_apply cfg f g)) = upd_val k (fsel f) (mget k (gsel g)).
+  Hypothesis reconcile_side : forall m old,
+      mget k (msel m) = None -> mget k (gsel (fst (apply_slot_with sg eq cfg m (Some old)))) = mget k (gsel old).
+
+  Lemma step_foreign_key : forall e s n g,
+      not_computed af cfg cl n [e] msel k ->
+      get_pg n s = Some g ->
+      exists g', get_pg n (fst (step_with af pf sg eq cfg cl e s)) = Some g'
+                 /\ mget k (gsel g') = foreign_only_key fsel n k [e] (mget k (gsel g)).
+  Proof.
+    intros e s n g Hnc Hg. destruct e as [p|n' f]; cbn [step_with foreign_only_key].
+    - destruct (full_md_with af cfg cl p (get_asg (p_name p) s)) as [m|] eqn:E.
+      + destruct (rec_step_some af pf sg eq cfg cl p s m E) as [P1 _]. fold (rec_step af pf sg eq cfg cl p s). rewrite P1.
+        destruct (String.eqb_spec n (m_name m)) as [->|Hn].
+        * rewrite Hg. eexists. split; [reflexivity|]. apply reconcile_side.
+          apply (Hnc p (get_asg (p_name p) s) m); [now left|exact E|reflexivity].
+        * exists g. auto.
+      + rewrite (rec_step_none _ _ _ _ _ _ _ _ E). exists g. auto.
+    - destruct (get_pg n' s) as [g0|] eqn:E0; cbn [fst].
+      + unfold get_pg at 1. cbn [st_pgs]. rewrite lookup_aset. destruct (String.eqb_spec n n') as [->|Hn].
+        * rewrite String.eqb_refl. eexists. split; [reflexivity|].
+          assert (g0 = g) as -> by (unfold get_pg in *; congruence). apply foreign_side.
+        * destruct (String.eqb_spec n' n); [congruence|]. exists g. auto.
+      + destruct (String.eqb_spec n' n) as [->|_]; [congruence|]. exists g. auto.
+  Qed.
+
+  Lemma run_foreign_key : forall evs s n g,
+      not_computed af cfg cl n evs msel k ->
+      get_pg n s = Some g ->
+      exists g', get_pg n (run_with af pf sg eq cfg cl evs s) = Some g'
+                 /\ mget k (gsel g') = foreign_only_key fsel n k evs (mget k (gsel g)).
+  Proof.
+    induction evs as [|e evs IH]; intros s n g Hnc Hg.
+    - exists g. auto.
+    - destruct (not_computed_cons _ _ _ _ _ _ _ _ Hnc) as [Hnc1 Hnc2].
+      destruct (step_foreign_key e s n g Hnc1 Hg) as [g1 [Hg1 Hv1]].
+      destruct (IH _ n g1 Hnc2 Hg1) as [g' [Hg' Hv']].
+      exists g'. split; [exact Hg'|]. rewrite Hv', Hv1.
+      destruct e as [p|n' f]; reflexivity.
+  Qed.
+End ForeignKey.
+
+(** a label key other than the queue and node-pool keys that no reconcile computes holds, after any
+    interleaving of reconciles and foreign updates, what the foreign updates alone make of it *)
+Theorem foreign_labels_kept : forall af pf sg eq cfg cl evs s n g k,
+    k <> c_queue_key cfg -> k <> c_nodepool_key cfg ->
+    not_computed af cfg cl n evs m_labels k ->
+    get_pg n s = Some g ->
+    exists g', get_pg n (run_with af pf sg eq cfg cl evs s) = Some g'
+               /\ mget k (pg_labels g') = foreign_only_key f_labels n k evs (mget k (pg_labels g)).
+Proof.
+  intros af pf sg eq cfg cl evs s n g k Hq Hn. apply run_foreign_key.
+  - intros f g0. rewrite foreign_apply_label. now apply flabel_upd_other.
+  - intros m old H. apply apply_slot_other_labels. rewrite ignored_labels_other by assumption. exact H.
+Qed.
+
+Theorem foreign_annots_kept : forall af pf sg eq cfg cl evs s n g k,
+    not_computed af cfg cl n evs m_annots k ->
+    get_pg n s = Some g ->
+    exists g', get_pg n (run_with af pf sg eq cfg cl evs s) = Some g'
+               /\ mget k (pg_annots g') = foreign_only_key f_annots n k evs (mget k (pg_annots g)).
+Proof.
+  intros af pf sg eq cfg cl evs s n g k. apply run_foreign_key.
+  - intros f g0. apply foreign_apply_annot.
+  - intros m old H. now apply apply_slot_other_annots.
 Qed.
 
 (** a reconcile keeps a queue label that is present *)
@@ -1508,6 +1686,269 @@ Proof.
   - destruct (rec_step_some af pf sg eq cfg cl p s m E) as [P1 _]. rewrite P1.
     destruct (String.eqb_spec n (m_name m)) as [->|Hn]; [|reflexivity]. now elim (H m).
   - unfold rec_step. now rewrite (rec_step_none _ _ _ _ _ _ _ _ E).
+Qed.
+
+(** * (3'') idempotence in the presence of keys of other actors on the stored PodGroup *)
+
+Lemma lookup_some_in : forall (s : smap) k v, lookup k s = Some v -> In (k, v) s.
+Proof.
+  induction s as [|[k0 v0] r IH]; intros k v H; cbn in *; [discriminate|].
+  destruct (String.eqb_spec k k0) as [->|_]; [inversion H; now left|right; auto].
+Qed.
+
+Lemma in_lookup_some : forall (s : smap) k v, In (k, v) s -> exists v', lookup k s = Some v'.
+Proof.
+  induction s as [|[k0 v0] r IH]; intros k v H; cbn in *; [contradiction|].
+  destruct (String.eqb_spec k k0) as [->|Hne]; [eauto|].
+  destruct H as [H|H]; [inversion H; congruence|eauto].
+Qed.
+
+(** mapsEqualBySourceKeys(source, target), read as a statement: every binding of the source is in the target *)
+Lemma maps_equal_spec : forall s t,
+    maps_equal_by_source_keys true (Some s) t = true <-> (forall k v, lookup k s = Some v -> mget k t = Some v).
+Proof.
+  intros s [t|]; cbn [maps_equal_by_source_keys mget andb]; split.
+  - intros H k v Hk. rewrite forallb_forall in H. specialize (H _ (lookup_some_in _ _ _ Hk)). cbn [fst] in H.
+    rewrite Hk in H. destruct (lookup k t) as [w|]; cbn in H; [|discriminate].
+    apply String.eqb_eq in H. now subst.
+  - intros H. apply forallb_forall. intros [k v] Hin. cbn [fst].
+    destruct (in_lookup_some _ _ _ Hin) as [v' Hv']. rewrite Hv', (H _ _ Hv'). cbn. apply String.eqb_refl.
+  - intros H k v Hk. destruct s; [discriminate|discriminate].
+  - intros H. destruct s as [|[k v] r]; [reflexivity|].
+    specialize (H k v). cbn in H. rewrite String.eqb_refl in H. discriminate (H eq_refl).
+Qed.
+
+Lemma maps_equal_cong : forall src t t',
+    (forall k v, mget k src = Some v -> mget k t' = mget k t) ->
+    maps_equal_by_source_keys true src t' = maps_equal_by_source_keys true src t.
+Proof.
+  intros [s|] t t' H; [|reflexivity]. apply Bool.eq_iff_eq_true. rewrite !maps_equal_spec.
+  cbn [mget] in H. split; intros Hs k v Hk.
+  - rewrite <- (H _ _ Hk). now apply Hs.
+  - rewrite (H _ _ Hk). now apply Hs.
+Qed.
+
+(** the stored PodGroup [g] is what ApplyToCluster wants for [m]: podGroupsEqual says so *)
+Definition up_to_date (cfg : config) (m : metadata) (g : pg) : bool :=
+  pg_equal_v1 g (ignore_fields true cfg g (create_pg m)).
+
+Lemma apply_slot_up_to_date : forall cfg m g,
+    apply_slot_with true pg_equal_v1 cfg m (Some g) =
+    if up_to_date cfg m g then (g, 0%Z)
+    else (norm (update_pg g (ignore_fields true cfg g (create_pg m))), 1%Z).
+Proof. reflexivity. Qed.
+
+(** [f] touches only label / annotation keys that the metadata [m] does not carry *)
+Definition foreign_to (cfg : config) (m : metadata) (f : foreign_upd) : Prop :=
+  f_queue f = None /\ f_mark f = None /\ f_backoff f = None /\ f_nodepool f = None /\ f_qlabel f = None
+  /\ (forall k, In k (map fst (f_labels f)) ->
+                k <> c_queue_key cfg /\ k <> c_nodepool_key cfg /\ mget k (m_labels m) = None)
+  /\ (forall k, In k (map fst (f_annots f)) -> mget k (m_annots m) = None).
+
+Lemma spec_eqb_ignore_cong : forall cfg m g g',
+    sp_min g' = sp_min g -> sp_queue g' = sp_queue g -> sp_prio g' = sp_prio g -> sp_preempt g' = sp_preempt g ->
+    sp_mark g' = sp_mark g -> sp_backoff g' = sp_backoff g -> sp_subgroups g' = norm_slice (sp_subgroups g) ->
+    sp_topo g' = sp_topo g ->
+    spec_eqb g' (ignore_fields true cfg g' (create_pg m)) = spec_eqb g (ignore_fields true cfg g (create_pg m)).
+Proof.
+  intros cfg m g g' H1 H2 H3 H4 H5 H6 H7 H8. unfold spec_eqb.
+  cbn [ignore_fields create_pg sp_min sp_queue sp_prio sp_preempt sp_mark sp_backoff sp_subgroups sp_topo].
+  rewrite H1, H2, H3, H4, H5, H6, H7, H8.
+  destruct (sp_subgroups g) as [[|x l]|]; cbn [norm_slice]; try reflexivity.
+  destruct (m_subgroups m); reflexivity.
+Qed.
+
+Lemma ignored_labels_cong : forall cfg g g' new,
+    mget (c_nodepool_key cfg) (pg_labels g') = mget (c_nodepool_key cfg) (pg_labels g) ->
+    mget (c_queue_key cfg) (pg_labels g') = mget (c_queue_key cfg) (pg_labels g) ->
+    ignored_labels cfg g' new = ignored_labels cfg g new.
+Proof.
+  intros cfg g g' new Hn Hq. rewrite !mget_or_nil in *. unfold ignored_labels, q_step, np_step.
+  now rewrite Hn, Hq.
+Qed.
+
+Lemma flabel_upd_untouched : forall cfg k f v,
+    f_nodepool f = None -> f_qlabel f = None -> ~ In k (map fst (f_labels f)) -> flabel_upd cfg k f v = v.
+Proof.
+  intros cfg k f v Hn Hq Hk. unfold flabel_upd. rewrite Hn, Hq, upd_val_untouched by exact Hk.
+  now destruct (String.eqb k (c_queue_key cfg)), (String.eqb k (c_nodepool_key cfg)).
+Qed.
+
+(** such an update does not change the verdict of podGroupsEqual *)
+Lemma up_to_date_foreign : forall cfg m f g,
+    foreign_to cfg m f -> up_to_date cfg m (foreign_apply cfg f g) = up_to_date cfg m g.
+Proof.
+  intros cfg m f g (Fq & Fm & Fb & Fn & Fl & HL & HA).
+  assert (forall k, mget k (pg_labels (create_pg m)) <> None \/ k = c_queue_key cfg \/ k = c_nodepool_key cfg ->
+                    mget k (pg_labels (foreign_apply cfg f g)) = mget k (pg_labels g)) as Hlab.
+  { intros k Hk. rewrite foreign_apply_label. apply flabel_upd_untouched; [exact Fn|exact Fl|].
+    intros Hin. destruct (HL _ Hin) as (A & B & C). cbn [create_pg pg_labels] in Hk.
+    destruct Hk as [Hk|[Hk|Hk]]; congruence. }
+  unfold up_to_date, pg_equal_v1, pg_equal_with. f_equal; [f_equal; [f_equal|]|].
+  - apply spec_eqb_ignore_cong; unfold foreign_apply; cbn [norm sp_min sp_queue sp_prio sp_preempt sp_mark sp_backoff sp_subgroups sp_topo];
+      rewrite ?Fq, ?Fm, ?Fb; reflexivity.
+  - rewrite !ignore_fields_labels.
+    rewrite (ignored_labels_cong cfg g (foreign_apply cfg f g)) by (apply Hlab; auto).
+    apply maps_equal_cong. intros k v Hk. apply Hlab. cbn [mget] in Hk.
+    destruct (String.eqb_spec k (c_queue_key cfg)) as [->|Hq]; [auto|].
+    destruct (String.eqb_spec k (c_nodepool_key cfg)) as [->|Hn]; [auto|].
+    left. rewrite <- (ignored_labels_other cfg g (create_pg m) k Hq Hn). congruence.
+  - cbn [ignore_fields pg_annots create_pg]. apply maps_equal_cong. intros k v Hk.
+    rewrite foreign_apply_annot. apply upd_val_untouched. intros Hin. rewrite (HA _ Hin) in Hk. discriminate.
+Qed.
+
+(** ... and therefore not what a reconcile writes: nothing the grouper computes changed *)
+Theorem foreign_keys_do_not_wake : forall af pf cfg cl p s n f,
+    (forall m, full_md_with af cfg cl p (get_asg (p_name p) s) = Some m -> foreign_to cfg m f) ->
+    snd (reconcile_with af pf true pg_equal_v1 cfg cl p (fst (step_with af pf true pg_equal_v1 cfg cl (EvForeign n f) s)))
+    = snd (reconcile_with af pf true pg_equal_v1 cfg cl p s).
+Proof.
+  intros af pf cfg cl p s n f H. cbn [step_with].
+  destruct (get_pg n s) as [g|] eqn:Eg; cbn [fst]; [|reflexivity].
+  set (s' := {| st_pgs := aset n (foreign_apply cfg f g) (st_pgs s); st_asg := st_asg s |}).
+  assert (get_asg (p_name p) s' = get_asg (p_name p) s) as Ha by reflexivity.
+  destruct (full_md_with af cfg cl p (get_asg (p_name p) s)) as [m|] eqn:E.
+  - assert (full_md_with af cfg cl p (get_asg (p_name p) s') = Some m) as E' by now rewrite Ha.
+    destruct (rec_step_some af pf true pg_equal_v1 cfg cl p s m E) as [_ [_ W]].
+    destruct (rec_step_some af pf true pg_equal_v1 cfg cl p s' m E') as [_ [_ W']].
+    rewrite W, W', Ha. f_equal.
+    unfold get_pg at 1. unfold s' at 1. cbn [st_pgs]. rewrite lookup_aset.
+    destruct (String.eqb_spec (m_name m) n) as [En|_]; [|reflexivity].
+    rewrite En, Eg, !apply_slot_up_to_date, (up_to_date_foreign cfg m f g (H m eq_refl)).
+    now destruct (up_to_date cfg m g).
+  - assert (full_md_with af cfg cl p (get_asg (p_name p) s') = None) as E' by now rewrite Ha.
+    now rewrite (rec_step_none _ _ _ _ _ _ _ _ E), (rec_step_none _ _ _ _ _ _ _ _ E').
+Qed.
+
+(** once [p] was reconciled, every later reconcile of [p] is silent, whatever reconciles of pods of the
+    coherent set and whatever updates of foreign label / annotation keys happened since *)
+Section ForeignInterleaved.
+  Variables (af pf : bool) (cfg : config) (cl : list obj) (ps : list pod) (p : pod).
+  Hypothesis coh : coherent_with af cfg cl ps.
+  Hypothesis p_in : In p ps.
+  Let st := fun e s => fst (step_with af pf true pg_equal_v1 cfg cl e s).
+
+  Definition ev_ok (m : metadata) (e : event) : Prop :=
+    match e with
+    | EvReconcile q => In q ps
+    | EvForeign n f => n = m_name m -> foreign_to cfg m f
+    end.
+
+  Definition ev_rec_ok (e : event) : Prop := match e with EvReconcile q => In q ps | EvForeign _ _ => True end.
+
+  Lemma run_is_runs : forall evs s, run_with af pf true pg_equal_v1 cfg cl evs s = runs st evs s.
+  Proof. reflexivity. Qed.
+
+  Lemma skipped_stays_ev : forall evs s,
+      Forall ev_rec_ok evs -> full_md_with af cfg cl p (get_asg (p_name p) s) = None ->
+      get_asg (p_name p) (runs st evs s) = get_asg (p_name p) s.
+  Proof.
+    induction evs as [|e evs IH]; intros s Hes Hn; [reflexivity|]. cbn [runs fold_left].
+    inversion Hes as [|? ? He Hes']; subst.
+    assert (get_asg (p_name p) (st e s) = get_asg (p_name p) s) as Hstep.
+    { destruct e as [q|n f]; unfold st; cbn [step_with].
+      - cbn [ev_rec_ok] in He.
+        destruct (full_md_with af cfg cl q (get_asg (p_name q) s)) as [mq|] eqn:Eq.
+        + destruct (rec_step_some af pf true pg_equal_v1 cfg cl q s mq Eq) as [_ [A _]].
+          fold (rec_step af pf true pg_equal_v1 cfg cl q s). rewrite A.
+          destruct (String.eqb_spec (p_name p) (p_name q)) as [En|_]; [|reflexivity].
+          assert (p = q) as <- by now apply (cohw_names _ _ _ _ coh). congruence.
+        + now rewrite (rec_step_none _ _ _ _ _ _ _ _ Eq).
+      - now destruct (get_pg n s). }
+    fold (runs st evs (st e s)). rewrite IH; [exact Hstep|exact Hes'|now rewrite Hstep].
+  Qed.
+
+  Definition settled (m : metadata) (s : state) : Prop :=
+    get_asg (p_name p) s = Some (m_name m)
+    /\ exists g, get_pg (m_name m) s = Some g /\ up_to_date cfg m g = true.
+
+  Lemma settled_step : forall a0 m e s,
+      full_md_with af cfg cl p a0 = Some m -> ev_ok m e -> settled m s -> settled m (st e s).
+  Proof.
+    intros a0 m e s Em He [Ha [g [Hg Hu]]]. destruct e as [q|n f]; unfold st; cbn [step_with ev_ok] in *.
+    - fold (rec_step af pf true pg_equal_v1 cfg cl q s).
+      destruct (full_md_with af cfg cl q (get_asg (p_name q) s)) as [mq|] eqn:Eq.
+      + destruct (rec_step_some af pf true pg_equal_v1 cfg cl q s mq Eq) as [P [A _]]. split.
+        * rewrite A. destruct (String.eqb_spec (p_name p) (p_name q)) as [En|_]; [|exact Ha].
+          assert (p = q) as <- by now apply (cohw_names _ _ _ _ coh).
+          rewrite Ha in Eq. destruct (cohw_settles _ _ _ _ coh p p_in _ _ Em) as [E2|E2]; congruence.
+        * rewrite P. destruct (String.eqb_spec (m_name m) (m_name mq)) as [En|_]; [|now exists g].
+          assert (m = mq) as <- by (apply (cohw_agree _ _ _ _ coh p q p_in He _ _ _ _ Em Eq En)).
+          rewrite Hg, apply_slot_up_to_date, Hu. now exists g.
+      + unfold rec_step. rewrite (rec_step_none _ _ _ _ _ _ _ _ Eq). split; [exact Ha|now exists g].
+    - destruct (get_pg n s) as [g0|] eqn:E0; cbn [fst]; [|split; [exact Ha|now exists g]].
+      split; [exact Ha|]. unfold get_pg at 1. cbn [st_pgs]. rewrite lookup_aset.
+      destruct (String.eqb_spec (m_name m) n) as [En|_]; [|now exists g].
+      assert (g0 = g) as -> by (unfold get_pg in *; congruence).
+      eexists. split; [reflexivity|]. rewrite up_to_date_foreign; [exact Hu|]. apply He. now symmetry.
+  Qed.
+
+  Lemma settled_runs : forall a0 m evs s,
+      full_md_with af cfg cl p a0 = Some m -> Forall (ev_ok m) evs -> settled m s -> settled m (runs st evs s).
+  Proof.
+    intros a0 m evs. induction evs as [|e evs IH]; intros s Em Hes Hs; [exact Hs|]. cbn [runs fold_left].
+    inversion Hes as [|? ? He Hes']; subst.
+    fold (runs st evs (st e s)). apply IH; [exact Em|exact Hes'|].
+    apply (settled_step a0); assumption.
+  Qed.
+
+  Lemma settled_silent : forall a0 m s,
+      pf = true \/ no_stale_subgroup p ->
+      full_md_with af cfg cl p a0 = Some m -> settled m s ->
+      snd (reconcile_with af pf true pg_equal_v1 cfg cl p s) = 0%Z.
+  Proof.
+    intros a0 m s Hsg Em [Ha [g [Hg Hu]]].
+    destruct (cohw_settles _ _ _ _ coh p p_in _ _ Em) as [E2|E2]; rewrite <- Ha in E2.
+    - destruct (rec_step_some af pf true pg_equal_v1 cfg cl p s m E2) as [_ [_ W]].
+      rewrite W, Hg, apply_slot_up_to_date, Hu, Ha. now rewrite no_patch_after_assignment.
+    - now rewrite (rec_step_none _ _ _ _ _ _ _ _ E2).
+  Qed.
+
+  Lemma ev_ok_rec_ok : forall m e, ev_ok m e -> ev_rec_ok e.
+  Proof. intros m [q|n f]; cbn; auto. Qed.
+
+  Theorem idempotent_foreign_gen : forall evs s,
+      pf = true \/ no_stale_subgroup p ->
+      Forall ev_rec_ok evs ->
+      (forall a m, full_md_with af cfg cl p a = Some m -> Forall (ev_ok m) evs) ->
+      snd (reconcile_with af pf true pg_equal_v1 cfg cl p (runs st evs (st (EvReconcile p) s))) = 0%Z.
+  Proof.
+    intros evs s Hsg Hrec Hes.
+    destruct (full_md_with af cfg cl p (get_asg (p_name p) s)) as [m|] eqn:E.
+    - apply (settled_silent (get_asg (p_name p) s) m); [exact Hsg|exact E|].
+      apply (settled_runs (get_asg (p_name p) s) m _ _ E (Hes _ _ E)).
+      destruct (rec_step_some af pf true pg_equal_v1 cfg cl p s m E) as [P [A _]].
+      unfold st. cbn [step_with]. fold (rec_step af pf true pg_equal_v1 cfg cl p s). split.
+      + now rewrite A, String.eqb_refl.
+      + rewrite P, String.eqb_refl.
+        destruct (apply_slot_cases true pg_equal_v1 cfg m (get_pg (m_name m) s)) as [[Hw _]|[old [Hc [Heq Hr]]]].
+        * rewrite Hw. eexists. split; [reflexivity|]. apply written_is_equal_v1.
+        * rewrite Hr. cbn [fst]. exists old. split; [reflexivity|exact Heq].
+    - assert (st (EvReconcile p) s = s) as -> by (unfold st; cbn [step_with]; now rewrite (rec_step_none _ _ _ _ _ _ _ _ E)).
+      assert (full_md_with af cfg cl p (get_asg (p_name p) (runs st evs s)) = None) as E'
+          by now rewrite skipped_stays_ev.
+      now rewrite (rec_step_none _ _ _ _ _ _ _ _ E').
+  Qed.
+End ForeignInterleaved.
+
+(** the events a coherent pod set may see between two reconciles of [p] without waking it *)
+Definition quiet_event (cfg : config) (cl : list obj) (ps : list pod) (p : pod) (e : event) : Prop :=
+  match e with
+  | EvReconcile q => In q ps
+  | EvForeign n f => forall a m, full_md cfg cl p a = Some m -> n = m_name m -> foreign_to cfg m f
+  end.
+
+Theorem idempotent_with_foreign_keys : forall cfg cl ps evs p s,
+    coherent cfg cl ps -> In p ps -> Forall (quiet_event cfg cl ps p) evs ->
+    snd (reconcile cfg cl p (run cfg cl evs (fst (reconcile cfg cl p s)))) = 0%Z.
+Proof.
+  intros cfg cl ps evs p s Hc Hp Hq. unfold run, reconcile.
+  rewrite (run_is_runs annot_fix patch_fix cfg cl).
+  apply (idempotent_foreign_gen annot_fix patch_fix cfg cl ps p (coherent_is_with _ _ _ Hc) Hp evs s).
+  - now left.
+  - eapply Forall_impl; [|exact Hq]. intros [q|n f]; cbn; auto.
+  - intros a m Em. eapply Forall_impl; [|exact Hq]. intros [q|n f]; cbn; [auto|].
+    intros H. now apply (H a m).
 Qed.
 
 (** * Concrete instances: the history of the findings, and non-vacuity *)
@@ -1694,4 +2135,120 @@ Proof.
   split; [reflexivity|]. split; [discriminate|].
   cbv zeta. split; [vm_compute; reflexivity|]. split; [vm_compute; reflexivity|].
   eexists. split; [vm_compute; reflexivity|]. repeat split.
+Qed.
+
+(** ** keys of other actors on the stored PodGroup: the scheduler's timestamp annotations, an admin label *)
+Definition last_start_key := "kai.scheduler/last-start-timestamp".
+Definition stale_key := "kai.scheduler/stale-podgroup-timestamp".
+
+(** what the scheduler's status updater and an administrator do to a PodGroup *)
+Definition ex_sched_upd : foreign_upd :=
+  {| f_queue := None; f_mark := None; f_backoff := None; f_nodepool := None; f_qlabel := None;
+     f_labels := [("team-owner", Some "ml-infra")];
+     f_annots := [(last_start_key, Some "2025-06-01T10:00:00Z"); (stale_key, Some "2025-06-01T10:05:00Z")] |}.
+(** ... and the scheduler removing its stale mark again *)
+Definition ex_sched_upd2 : foreign_upd :=
+  {| f_queue := None; f_mark := None; f_backoff := None; f_nodepool := None; f_qlabel := None;
+     f_labels := []; f_annots := [(stale_key, None); (last_start_key, Some "2025-06-01T11:00:00Z")] |}.
+
+Definition ex_pg_name := "pg-web-u-sts".
+Definition ex_quiet_events : list event :=
+  [EvReconcile (ex_pod "1"); EvForeign ex_pg_name ex_sched_upd; EvReconcile (ex_pod "1");
+   EvForeign ex_pg_name ex_sched_upd2].
+
+(** the PodGroup exists and the scheduler has annotated it *)
+Definition ex_annotated : state :=
+  fst (step ex_cfg [ex_sts] (EvForeign ex_pg_name ex_sched_upd) (after 1 ex_cfg [ex_sts] (ex_pod "0"))).
+
+Lemma ex_full_md_name : forall i a m, full_md ex_cfg [ex_sts] (ex_pod i) a = Some m ->
+    m_name m = ex_pg_name /\ m_labels m = Some [("kai.scheduler/queue", "team-a")]
+    /\ m_annots m = Some [(tom_key, "tom-web")].
+Proof. intros i a m H. destruct a; vm_compute in H; inversion H; subst; repeat split. Qed.
+
+Lemma ex_sched_foreign_to : forall i a m, full_md ex_cfg [ex_sts] (ex_pod i) a = Some m ->
+    foreign_to ex_cfg m ex_sched_upd /\ foreign_to ex_cfg m ex_sched_upd2.
+Proof.
+  intros i a m H. destruct (ex_full_md_name i a m H) as (_ & HL & HA).
+  split; (repeat (split; [reflexivity|]); rewrite HL, HA; split; intros k Hin; cbn in Hin;
+          repeat (destruct Hin as [<-|Hin]; [repeat split; try discriminate|]); contradiction).
+Qed.
+
+Lemma ex_foreign_keys_nonvacuous :
+  Forall (quiet_event ex_cfg [ex_sts] [ex_pod "0"; ex_pod "1"] (ex_pod "0")) ex_quiet_events
+  /\ not_computed annot_fix ex_cfg [ex_sts] ex_pg_name ex_quiet_events m_annots last_start_key
+  /\ not_computed annot_fix ex_cfg [ex_sts] ex_pg_name ex_quiet_events m_labels "team-owner"
+  /\ "team-owner" <> c_queue_key ex_cfg /\ "team-owner" <> c_nodepool_key ex_cfg
+  /\ let s := run ex_cfg [ex_sts] ex_quiet_events (after 1 ex_cfg [ex_sts] (ex_pod "0")) in
+     snd (reconcile ex_cfg [ex_sts] (ex_pod "0") s) = 0%Z
+     /\ exists g, get_pg ex_pg_name s = Some g
+                  /\ mget last_start_key (pg_annots g) = Some "2025-06-01T11:00:00Z"
+                  /\ mget stale_key (pg_annots g) = None
+                  /\ mget "team-owner" (pg_labels g) = Some "ml-infra"
+                  /\ foreign_only_key f_annots ex_pg_name last_start_key ex_quiet_events None = Some "2025-06-01T11:00:00Z".
+Proof.
+  split.
+  { unfold ex_quiet_events.
+    repeat (apply Forall_cons; [cbn [quiet_event]; first [cbn; now auto | intros a m H _; now destruct (ex_sched_foreign_to "0" a m H)]|]).
+    apply Forall_nil. }
+  split.
+  { intros p a m Hin H _. cbn in Hin.
+    destruct Hin as [E|[E|[E|[E|[]]]]]; inversion E; subst p;
+      destruct (ex_full_md_name "1" a m H) as (_ & _ & ->); reflexivity. }
+  split.
+  { intros p a m Hin H _. cbn in Hin.
+    destruct Hin as [E|[E|[E|[E|[]]]]]; inversion E; subst p;
+      destruct (ex_full_md_name "1" a m H) as (_ & -> & _); reflexivity. }
+  split; [discriminate|]. split; [discriminate|].
+  cbv zeta. split; [vm_compute; reflexivity|].
+  eexists. split; [vm_compute; reflexivity|]. repeat split.
+Qed.
+
+(** with the comparison the other way round ([pg_equal_swapped], NOT the code) the stored annotation makes every
+    reconcile of every member pod issue an Update that changes nothing, for ever; the code as it is stays silent *)
+Definition rec_swapped := reconcile_with annot_fix patch_fix ignore_sg pg_equal_swapped.
+
+Lemma swapped_comparison_writes_forever :
+  (* the code as it is *)
+  snd (reconcile ex_cfg [ex_sts] (ex_pod "0") ex_annotated) = 0%Z
+  /\ snd (reconcile ex_cfg [ex_sts] (ex_pod "1") (fst (reconcile ex_cfg [ex_sts] (ex_pod "1") ex_annotated))) = 0%Z
+  (* the swapped comparison: the PodGroup exists, nothing the grouper computes changed, yet each reconcile writes *)
+  /\ (forall n, let s := Nat.iter n (fun s => fst (rec_swapped ex_cfg [ex_sts] (ex_pod "0") s)) ex_annotated in
+                snd (rec_swapped ex_cfg [ex_sts] (ex_pod "0") s) = 1%Z /\ st_pgs s = st_pgs ex_annotated)
+  /\ snd (rec_swapped ex_cfg [ex_sts] (ex_pod "1") (fst (rec_swapped ex_cfg [ex_sts] (ex_pod "1") ex_annotated))) = 1%Z
+  (* without a key of another actor on the stored PodGroup the swapped comparison is silent as well *)
+  /\ snd (rec_swapped ex_cfg [ex_sts] (ex_pod "0") (after 1 ex_cfg [ex_sts] (ex_pod "0"))) = 0%Z.
+Proof.
+  split; [vm_compute; reflexivity|]. split; [vm_compute; reflexivity|]. split.
+  { assert (fst (rec_swapped ex_cfg [ex_sts] (ex_pod "0") ex_annotated) = ex_annotated) as Hfix
+        by (vm_compute; reflexivity).
+    assert (forall n, Nat.iter n (fun s => fst (rec_swapped ex_cfg [ex_sts] (ex_pod "0") s)) ex_annotated = ex_annotated) as Hn.
+    { induction n as [|n IH]; [reflexivity|].
+      change (fst (rec_swapped ex_cfg [ex_sts] (ex_pod "0")
+                     (Nat.iter n (fun s => fst (rec_swapped ex_cfg [ex_sts] (ex_pod "0") s)) ex_annotated)) = ex_annotated).
+      rewrite IH. exact Hfix. }
+    intros n. cbv zeta. rewrite Hn. split; [vm_compute; reflexivity|reflexivity]. }
+  split; vm_compute; reflexivity.
+Qed.
+
+(** a key that was on the owner when the PodGroup was created and is removed from the owner afterwards stays
+    on the stored PodGroup (updatePodGroup merges): the grouper no longer computes it, the code as it is writes
+    nothing, the swapped comparison writes on every reconcile *)
+Definition ex_sts_labelled : obj :=
+  {| o_gvk := mk_gvk "apps" "v1" "StatefulSet"; o_name := "web"; o_uid := "u-sts";
+     o_labels := [("kai.scheduler/queue", "team-a"); ("app", "web")]; o_annots := [("note", "x")];
+     o_owners := []; o_tom := "tom-web" |}.
+
+Lemma owner_key_removed :
+  let s := after 1 ex_cfg [ex_sts_labelled] (ex_pod "0") in
+  (exists g, get_pg ex_pg_name s = Some g /\ mget "app" (pg_labels g) = Some "web" /\ mget "note" (pg_annots g) = Some "x")
+  /\ snd (reconcile ex_cfg [ex_sts] (ex_pod "0") s) = 0%Z
+  /\ (exists g, get_pg ex_pg_name (fst (reconcile ex_cfg [ex_sts] (ex_pod "0") s)) = Some g
+                /\ mget "app" (pg_labels g) = Some "web" /\ mget "note" (pg_annots g) = Some "x")
+  /\ snd (rec_swapped ex_cfg [ex_sts] (ex_pod "0") s) = 1%Z
+  /\ snd (rec_swapped ex_cfg [ex_sts] (ex_pod "0") (fst (rec_swapped ex_cfg [ex_sts] (ex_pod "0") s))) = 1%Z.
+Proof.
+  cbv zeta. split; [eexists; split; [vm_compute; reflexivity|split; reflexivity]|].
+  split; [vm_compute; reflexivity|].
+  split; [eexists; split; [vm_compute; reflexivity|split; reflexivity]|].
+  split; vm_compute; reflexivity.
 Qed.
